@@ -16,7 +16,6 @@ import (
 	"net/http"
 	"strings"
 
-	"github.com/AdguardTeam/gomitmproxy/proxyutil"
 	"github.com/AdguardTeam/urlfilter/proxy"
 )
 
@@ -219,10 +218,12 @@ func genC20Html(r *rng, n int, w *bufio.Writer) {
 		})
 		fmt.Fprintf(w, "c20.html %s %s %s = %s ## len=%d gzip=%v %s\n", wb(string(body)), wbool(useGz), wb(tag), ans, len(body), useGz, note)
 		if i%4 == 0 {
-			dec, err := proxyutil.DecodeLatin1(bytes.NewReader(body))
-			if err == nil {
-				fmt.Fprintf(w, "c20.index %s = %d ## len=%d %s\n", wb(string(body)), proxy.VerifFindBodyInjectionIndex(dec), len(body), note)
+			// charmap.ISO8859_1 decoding: byte b is the code point U+00bb
+			rs := make([]rune, len(body))
+			for k, c := range body {
+				rs[k] = rune(c)
 			}
+			fmt.Fprintf(w, "c20.index %s = %d ## len=%d %s\n", wb(string(body)), proxy.VerifFindBodyInjectionIndex(string(rs)), len(body), note)
 		}
 	}
 	_ = strings.ToLower
